@@ -176,19 +176,34 @@ func VH_C16_reader_paths() {
 	vObserve("n", n)
 }
 
-//verif:harness prop=C16 quick=3 thorough=6 merge=concrete
-//verif:bounds the ORIGIN field reader on blocks that do NOT have the declared length, in the same three spellings (LF fast path; CRLF and trailing blanks slow path): block of 5 | 60 | 65 (thorough also 10 | 59 | 120) symbolic residues read with a declared length one less or one more, or followed by one surplus sequence line: rejected in every spelling (the two paths accept the same blocks)
+//verif:harness prop=C16 quick=4 thorough=8 merge=concrete
+//verif:bounds the ORIGIN field reader on blocks that do NOT have the declared length, in the same three spellings (LF fast path; CRLF and trailing blanks slow path): block of 5 | 60 | 65 | 25 (thorough also 10 | 59 | 120 | 78) symbolic residues read with a declared length one less, one more, or cut back to the previous group boundary (surplus on the same line), or followed by one surplus sequence line: rejected in every spelling (the two paths accept the same blocks)
 func VH_C16_reader_paths_malformed() {
-	n := []int{5, 60, 65, 10, 59, 120}[vShard(3+3*vTier())]
+	vOriginMalformed([]int{5, 60, 65, 25, 10, 59, 120, 78}[vShard(4+4*vTier())])
+}
+
+//verif:harness prop=C07 quick=4 thorough=8 merge=concrete
+//verif:bounds an ORIGIN block whose residue count differs from the declared length (one less, one more, cut back to the previous group boundary with the surplus on the same line, one surplus line), block of 5 | 60 | 65 | 25 (thorough also 10 | 59 | 120 | 78) symbolic residues, LF, CRLF and trailing-blank spellings: reported as an error, never read as a shortened sequence
+func VH_C07_origin_declared_length() {
+	vOriginMalformed([]int{5, 60, 65, 25, 10, 59, 120, 78}[vShard(4+4*vTier())])
+}
+
+func vOriginMalformed(n int) {
 	p := vBytesIn("p", n, 33, 126)
 	blk := NewOrigin(p).Buffer
-	defect := vChoice("defect", 3)
+	defect := vChoice("defect", 4)
 	declared := n
 	switch defect {
 	case 0:
 		declared = n - 1
 	case 1:
 		declared = n + 1
+	case 2:
+		// the declared length ends on a group boundary and the surplus residues follow on the same line
+		declared = n - n%10
+		if n%10 == 0 {
+			declared = n - 10
+		}
 	default:
 		// one more line in the layout of the block: index, blank, residues
 		extra := NewOrigin(append(append([]byte{}, p...), vBytesIn("x", 3, 33, 126)...)).Buffer
